@@ -56,7 +56,8 @@ theorem firstTags_disc (pre : List Sub) (ts : List Tag) (cs : List Comment) (hpr
 
 theorem changeset_rt (o : Opts) (id ca cl nc ncm : Nat) (uid : Int) (user : Bytes) (bl tr : Location) (tags : List Tag)
     (cs : List Comment) (h : XCsOK id ca cl nc ncm uid user bl tr tags cs) (st : RSt) (p : Ctx) (hp : TopParent p)
-    (rest : List Ctx) (hs : st.stack = p :: rest) (hc : st.cur = none) (hct : st.commentText = []) :
+    (rest : List Ctx) (hs : st.stack = p :: rest) (hc : st.cur = none) (hct : st.commentText = [])
+    (hcp : st.commentPending = false) :
     ∃ ps, objectPieces o (.changeset id ca cl nc ncm uid user bl tr tags cs) = .ok ps ∧
       runPieces ps st = .ok { markDone st with out := project o (.changeset id ca cl nc ncm uid user bl tr tags cs) :: st.out } := by
   obtain ⟨as, as', hw, hdec, hinit⟩ := cs_attrs_spec id ca cl nc ncm uid user bl tr tags cs h
@@ -73,6 +74,10 @@ theorem changeset_rt (o : Opts) (id ca cl nc ncm : Nat) (uid : Int) (user : Byte
     intro c
     simp only [st1]
     cases hh : st.headerOut <;> simp [markDone, push, hh, hct]
+  have hcp1 : ∀ c : Cur, ({ st1 with cur := some c } : RSt).commentPending = false := by
+    intro c
+    simp only [st1]
+    cases hh : st.headerOut <;> simp [markDone, push, hh, hcp]
   have hend : ∀ c : Cur, endElement {} ({ st1 with cur := some c } : RSt) =
       .ok { markDone st with out := assemble c :: st.out } := by
     intro c
@@ -133,7 +138,7 @@ theorem changeset_rt (o : Opts) (id ca cl nc ncm : Nat) (uid : Int) (user : Byte
       simp only [bindE_ok, Bool.false_eq_true, if_false, nl]
       rw [runPieces_ws _ _ _ (hnt1 _)]
       rw [tags_run 0 tags h.tags _ .changeset (Or.inr (Or.inr (Or.inr rfl))) (p :: rest) st1 _ hs1 rfl, hcol]
-      rw [hdrun ({ st1 with cur := some { obj := ob, subs := pre, lastOpen := lo } } : RSt) _ _ hs1 rfl (hct1 _) ft4]
+      rw [hdrun ({ st1 with cur := some { obj := ob, subs := pre, lastOpen := lo } } : RSt) _ _ hs1 rfl (hct1 _) (hcp1 _) ft4]
       refine hE _ ?_ [] rfl
       rw [assemble_changeset _ _ _ _ _ _ _ _ _ _ _ _ tags cs rfl ft1 ft2]
       rfl
